@@ -1,18 +1,57 @@
-(* C18 — following symlinks.  PLACEHOLDER statements until the termination / once-per-directory
-   proofs over model/WalkLinks.v are integrated: kernel-evaluated witnesses on graphs with cycles. *)
-From Coq Require Import List NArith Bool String.
-From FS Require Import lib.Str model.Walk model.WalkLinks.
+(* C18 - following symlinks finds what is behind them, once, and always terminates.
+   Statements only.  model/WalkLinks.v mirrors Searcher::visit_dir with `symlinks` on, over a file system
+   GRAPH (directories by inode; a link entry knows its text and, when it leads to a directory, that
+   directory's inode and canonical path); it is compared with the real binary on every run.  l_ent is a
+   ghost field: the inodes whose listing was read (one entry per read_dir).  Proofs: proofs/Links*.v. *)
+From Coq Require Import List NArith Bool String Permutation.
+From FS Require Import lib.Str model.Walk model.WalkLinks proofs.LinksProofs proofs.LinksExamples.
 Import ListNotations.
 Open Scope N_scope.
 
+(* ALWAYS TERMINATES, for every graph - cycles, links to ancestors, mutual links, self links - every depth
+   window, both orders, every limit: with fuel at least fuel_bound g (one more than the number of inode
+   occurrences in g) the walk returns a state, and more fuel never changes it *)
+Theorem C18_terminates : forall g mn mx dfs limit rootpath canon root_ino fuel,
+  (fuel_bound g <= fuel)%nat -> lwalk g mn mx dfs limit fuel rootpath canon root_ino <> None.
+Proof. intros; eapply lwalk_terminates; eassumption. Qed.
+Theorem C18_fuel_irrelevant : forall g mn mx dfs limit rootpath canon root_ino fuel fuel' s,
+  lwalk g mn mx dfs limit fuel rootpath canon root_ino = Some s -> (fuel <= fuel')%nat ->
+  lwalk g mn mx dfs limit fuel' rootpath canon root_ino = Some s.
+Proof. intros; eapply lwalk_fuel_irrelevant; eassumption. Qed.
+
+(* ONE TRAVERSAL PER REAL DIRECTORY, however many links or paths lead to it: no inode is marked twice, no
+   spelled path is visited twice, and (when a directory entry's inode is the inode of its listing, which
+   lstat guarantees) no directory is read twice and only directories reachable from the root are read *)
+Theorem C18_once : forall g mn mx dfs limit rootpath canon root_ino fuel s,
+  wf_graph g = true -> lwalk g mn mx dfs limit fuel rootpath canon root_ino = Some s ->
+  NoDup (l_vis s) /\ NoDup (l_vdirs s) /\ NoDup (l_ent s) /\ incl (l_ent s) (l_vis s).
+Proof. intros; eapply lwalk_enters_once; eassumption. Qed.
+Theorem C18_only_reachable : forall g mn mx dfs limit rootpath canon root_ino fuel s,
+  wf_graph g = true -> lwalk g mn mx dfs limit fuel rootpath canon root_ino = Some s ->
+  forall k, In k (l_vis s) -> reach g root_ino k.
+Proof. intros; eapply lwalk_sound; eassumption. Qed.
+
+(* FINDS WHAT IS BEHIND THE LINKS, wherever they point: without a depth limit and without LIMIT, the
+   directories read are exactly the directories reachable from the root through directories and links to
+   directories, each once - provided a spelled path names at most one directory (true of any file system;
+   needed because the walk also remembers the paths it has visited) *)
+Theorem C18_exactly_the_reachable_directories : forall g mn dfs rootpath canon root_ino fuel s,
+  wf_graph g = true -> path_functional g rootpath root_ino ->
+  lwalk g mn 0 dfs 0 fuel rootpath canon root_ino = Some s ->
+  NoDup (l_ent s) /\ forall j, In j (l_ent s) <-> reach g root_ino j.
+Proof. intros; eapply lwalk_exactly_reachable_once; eassumption. Qed.
+
+(* ... and every entry of every directory read is reported exactly once (mindepth 0, no LIMIT): the rows
+   are a permutation of the listings of the (spelled path, inode) pairs read *)
+Theorem C18_rows : forall g mx dfs rootpath canon root_ino fuel s,
+  lwalk g 0 mx dfs 0 fuel rootpath canon root_ino = Some s ->
+  List.length (l_vdirs s) = List.length (l_ent s) /\
+  Permutation (l_out s) (flat_map (rows_of g) (combine (l_vdirs s) (l_ent s))).
+Proof. intros; eapply lwalk_rows; eassumption. Qed.
+
+(* non-vacuity and a kernel-evaluated witness on a graph with an ancestor cycle and a self link *)
 (* r/ { a/ { f, up -> .. (the root: an ancestor cycle), self -> self (dangling loop) }, l -> a (relative), m -> /x/r/a (absolute) } *)
-Definition g_cycle : fsgraph :=
-  [ (1, (true, [ {| d_name := s "a"; d_ino := 2; d_kind := KDir 2 |};
-                 {| d_name := s "l"; d_ino := 10; d_kind := KLink (s "a") (Some (2, s "/x/r/a")) |};
-                 {| d_name := s "m"; d_ino := 11; d_kind := KLink (s "/x/r/a") (Some (2, s "/x/r/a")) |} ]));
-    (2, (true, [ {| d_name := s "f"; d_ino := 3; d_kind := KFile |};
-                 {| d_name := s "up"; d_ino := 12; d_kind := KLink (s "..") (Some (1, s "/x/r")) |};
-                 {| d_name := s "self"; d_ino := 13; d_kind := KLink (s "self") None |} ])) ]%string.
+(* g_cycle is defined in proofs/LinksExamples.v *)
 
 (* both orders terminate, list every entry of both real directories exactly once and report no error *)
 Theorem C18_cycle_witness :
@@ -22,4 +61,15 @@ Theorem C18_cycle_witness :
     = Some ([s "r/a"; s "r/a/f"; s "r/a/up"; s "r/a/self"; s "r/l"; s "r/m"], [])%string.
 Proof. vm_compute. split; reflexivity. Qed.
 
+
+Theorem C18_cycle_hypotheses : wf_graph g_cycle = true /\ path_functional g_cycle (s "r")%string 1 /\ fuel_bound g_cycle = 5%nat.
+Proof. split; [reflexivity|]. split; [exact g_cycle_path_functional | reflexivity]. Qed.
+
+Print Assumptions C18_terminates.
+Print Assumptions C18_fuel_irrelevant.
+Print Assumptions C18_once.
+Print Assumptions C18_only_reachable.
+Print Assumptions C18_exactly_the_reachable_directories.
+Print Assumptions C18_rows.
 Print Assumptions C18_cycle_witness.
+Print Assumptions C18_cycle_hypotheses.
